@@ -5,6 +5,7 @@ import BFL.Bridge.Transc
 import BFL.Proofs.SUKF
 import BFL.Proofs.SUKFModel
 import BFL.Props.C15
+import BFL.Props.C03
 /-
 C05 — The serial UKF correction equals the standard additive UKF correction.
 
@@ -316,6 +317,24 @@ theorem sukf_likelihood_after_step (inv : InvFn ℝ) (bs : Nat) (R : SNoise ℝ 
       · rfl
   · intro hdiv h1 h2 h3
     simp [sukfStepLikelihood, h1, h2, h3, hdiv]
+
+
+/-! ### The contract `hX` as a theorem about `sigma_point()` (C03's model) -/
+
+/-- For the sigma points C03's model of `sigma_point()` draws (linear state, any factor routine `fac` with
+    `fac c P · (fac c P)ᵀ = c P` — the LDLT-based square root), under the unscented weights: the hypothesis `hX` of the
+    theorems above holds.  So for a linear state `hX` reduces to the factorisation contract of C03. -/
+theorem sukf_hX_of_sigma_points (fac : ℝ → Mat ℝ n n → Mat ℝ n n) (alpha beta kappa : ℝ)
+    (hc : (n : ℝ) + utLambda n alpha kappa ≠ 0) (b : GM ℝ n k) (i : Fin k)
+    (hfac : FacOn fac (utWeights n alpha beta kappa).c (b.cov i)) :
+    toM (wOuter (offX 0 (b.mean i) (sigmaPoints fac (utWeights n alpha beta kappa).c b i)) (utWeights n alpha beta kappa).cov
+        (offX 0 (b.mean i) (sigmaPoints fac (utWeights n alpha beta kappa).c b i))) = toM (b.cov i) := by
+  have h := congrArg toM (ut_reproduces_cov fac alpha beta kappa hc b i hfac)
+  rw [toM_utCov] at h
+  rw [offX_zero, toM_wOuter, ← h]
+  congr 1
+  ext a j
+  simp [utOffsets, subCols, Matrix.mul_diagonal]
 
 /-! ### Round 4: the correction objects over call histories
 
